@@ -8,9 +8,10 @@ func nameT(name string, tfile int, tname string, inc int) *TypeX {
 
 func fixedCases() []*Prog {
 	var out []*Prog
-	// Definition names may contain dots.  `T` is the struct `b` of a.thrift, so `T.X` names nothing
-	// (the property's reading of identifiers: no constant, no enum value); the implementation falls
-	// back to the local enum literally named `a.b` and accepts the constant.
+	// Regression (fixed in /repo by "getEnum terminates on cyclic typedefs and does not look up
+	// include-qualified names locally"): definition names may contain dots.  `T` is the struct `b` of
+	// a.thrift, so `T.X` names nothing; the old getEnum fell back to the local enum literally named
+	// `a.b` and accepted the constant.
 	out = append(out, &Prog{
 		Root: 1, ISeed: 7, Expect: "undefvalue", Shape: "err:dotted-definition-name", Fixed: true,
 		Files: []*File{
@@ -18,6 +19,27 @@ func fixedCases() []*Prog {
 			{Path: "main.thrift", Includes: []Inc{{Path: "a.thrift", Target: 0}},
 				Enums:     []*Enum{{Name: "a.b", Values: []EnumVal{{"X", 0}}}},
 				Typedefs:  []*Typedef{{Alias: "T", Type: nameT("a.b", 0, "b", 0)}},
+				Constants: []*Constant{{Name: "c", Type: baseType("i32"), Value: &CV{K: "x", Str: "T.X"}}}},
+		}})
+	// Regression (same commit): a typedef cycle reached through a dotted constant identifier used to
+	// overflow the stack in getEnum.  Now: "undefined value" (constants are resolved before
+	// ResolveTypedefs reports the cycle).
+	out = append(out, &Prog{
+		Root: 0, ISeed: 7, Expect: "undefvalue", Shape: "err:typedef-cycle-through-dotted-constant", Fixed: true,
+		Files: []*File{
+			{Path: "main.thrift",
+				Typedefs:  []*Typedef{{Alias: "Loop0", Type: bad("Loop1")}, {Alias: "Loop1", Type: bad("Loop0")}},
+				Constants: []*Constant{{Name: "k", Type: baseType("i32"), Value: &CV{K: "x", Str: "Loop0.X"}}}},
+		}})
+	// Probe outside the hypotheses of resolve_const_binding_partial (saneNames): a definition named
+	// like a type keyword.  `T` is list<i32>; `T.X` reaches `enum list` through getEnum's fall-back
+	// `getEnumVisited(ast, x.Type.Name, seen)`.  Recorded, not raised (docs/C05.md, Defects 2).
+	out = append(out, &Prog{
+		Root: 0, ISeed: 7, Expect: "undefvalue", Shape: "err:keyword-named-enum-behind-container-typedef", Fixed: true, Observe: true,
+		Files: []*File{
+			{Path: "main.thrift",
+				Enums:     []*Enum{{Name: "list", Values: []EnumVal{{"X", 0}}}},
+				Typedefs:  []*Typedef{{Alias: "T", Type: &TypeX{K: "l", Val: baseType("i32"), Inc: -1, TFile: -1}}},
 				Constants: []*Constant{{Name: "c", Type: baseType("i32"), Value: &CV{K: "x", Str: "T.X"}}}},
 		}})
 	// the same shape without the dotted enum: correctly rejected
